@@ -99,7 +99,8 @@ example :=
     · exact ⟨trivial, trivial⟩
     · exact ⟨⟨by decide, by decide, by decide⟩, trivial⟩)
 
-/-- **nickname round trip.** For a nickname inside `NickOK` (≤ 16 characters after trimming, printable ASCII, no `Err:`)
+/-- **nickname round trip.** For a nickname inside `NickOK` (a condition on the TRIMMED name `strip s` only: ≤ 16
+characters, printable ASCII, no `Err:` — the raw argument may have any amount of leading/trailing whitespace)
 the write succeeds, the board stores the trimmed name, nothing else on the board changes, and a following
 `query_nickname` sets `self.name` to the trimmed name whatever `self.name` was before the query. -/
 theorem C16_nick (w : World) (hr : Ready w) (s : Str) (hs : NickOK s) :
@@ -117,6 +118,12 @@ theorem C16_nick (w : World) (hr : Ready w) (s : Str) (hs : NickOK s) :
 
 example :=
   C16_nick exampleWorld exampleWorld_inv.1 [' ', 'A', 'x', ' ', '1', '\n'] ⟨by decide, by decide, by decide⟩
+
+/-- raw length 18 > 16 is inside `NickOK`: only the trimmed name (16 characters here) is constrained -/
+example :=
+  C16_nick exampleWorld exampleWorld_inv.1
+    [' ', ' ', 'A', 'B', 'C', 'D', 'E', 'F', 'G', 'H', 'I', 'J', 'K', 'L', 'M', 'N', 'O', 'P']
+    ⟨by decide, by decide, by decide⟩
 
 /-- **motor enables.** From every prior board state (any enables, any mode 1..5) and for all integers `r1 r2`:
 motor 1 is enabled iff `clamp r1 ≠ 0`, motor 2 iff `clamp r2 ≠ 0`; the global mode is the requested non-zero resolution
